@@ -437,10 +437,10 @@ fn run_case(work: &Path, ops: &[Op], sel: &VarSel, rng: &mut Rng) -> CaseOut {
     // (mis-framed log): the history itself is the failing input; observe it for `from = 0` only and
     // skip its variants, which would only cost time
     let t_obs = std::time::Instant::now();
-    let _ = observe_real(&dir, 0, &idx);
+    let probe = observe_real(&dir, 0, &idx);
     let slow_replay = t_obs.elapsed().as_millis() > 100 && h.files.iter().map(|f| f.1.len()).sum::<usize>() < 20_000;
     let top = if slow_replay { 0 } else { top };
-    let final_obs = observe_real(&dir, top, &idx).unwrap_or_else(|e| {
+    let final_obs = (if slow_replay { probe } else { observe_real(&dir, top, &idx) }).unwrap_or_else(|e| {
         panics.push("intact".into());
         e
     });
